@@ -60,6 +60,29 @@ def hostile_names(rng, n):
     return ok
 
 
+class FaultyStream(object):
+    """A text stream that refuses its fail_at-th write (I/O fault)."""
+
+    def __init__(self):
+        self.parts = []
+        self.fail_at = None
+        self.nwrites = 0
+
+    def write(self, s):
+        if self.fail_at is not None:
+            self.nwrites += 1
+            if self.nwrites >= self.fail_at:
+                raise IOError('injected: stream refuses the write')
+        self.parts.append(s)
+        return len(s)
+
+    def getvalue(self):
+        return ''.join(self.parts)
+
+    def flush(self):
+        pass
+
+
 class Checker(object):
     def __init__(self, rep):
         self.rep = rep
@@ -89,6 +112,27 @@ class Checker(object):
                     text = f.to_smtlib(daggify=False)
                 elif how == 'dag':
                     text = f.to_smtlib(daggify=True)
+                elif how.endswith('-after-failure'):
+                    # one printer object: a print that fails half-way (the
+                    # stream refuses a write), then the formula
+                    import pysmt.smtlib.printers as SP
+                    st = FaultyStream()
+                    pr = (SP.SmtDagPrinter if how.startswith('dag') else
+                          SP.SmtPrinter)(st)
+                    victim = env.formula_manager.And(
+                        env.formula_manager.Not(f), f) \
+                        if ft == B.BOOL else env.formula_manager.Equals(f, f)
+                    self.nfail = getattr(self, 'nfail', 0) + 1
+                    st.fail_at = 1 + (self.nfail * 7) % 23
+                    try:
+                        pr.printer(victim)
+                        self.rep.count('printer_fault_not_reached')
+                    except IOError:
+                        self.rep.count('printer_faults_injected')
+                    st.fail_at = None
+                    pos = len(st.getvalue())
+                    pr.printer(f)
+                    text = st.getvalue()[pos:]
                 elif how.startswith('multi'):
                     # one script, one assert per conjunct: the commands
                     # share sub-terms and one printer serializes them all
@@ -124,7 +168,7 @@ class Checker(object):
                 'at %s' % (how, B.show(fb, 150), e, common.tb_short(e))
         # ---- read with the independent reader
         try:
-            if how in ('tree', 'dag'):
+            if how in ('tree', 'dag') or how.endswith('-after-failure'):
                 # sorts used by the symbols must be known to the reader
                 rb, rd = self.read_term(text, decls, fb)
             else:
@@ -359,6 +403,37 @@ def run(rep):
                 continue
             ck.check(how, b, j)
             j += 1
+    # names SMT-LIB has no spelling for (a bar or a backslash in them):
+    # the text must read back, under pySMT's documented escapes (\\\\ and
+    # \\|), with the very names of the formula
+    esc = ['a\\b', 'x\\', '\\', 'c:\\dir\\file', 'a|b', '|', 'p\\|q',
+           '\\\\', 'a\\|', '|\\', 'tab\\t', 'n\\n x', '\\|\\|']
+    S.PYSMT_ESCAPES[0] = True
+    try:
+        for i, n in enumerate(esc):
+            if i % rep.nshards != rep.shard:
+                continue
+            sb_, si_ = B.Sym(n, B.BOOL), B.Sym(n, B.INT)
+            cases = [
+                ('and', None, (sb_, ('not', None, (sb_,)), B.Sym('p',
+                                                                 B.BOOL))),
+                ('le', None, (('plus', None, (si_, B.Int(1))), si_)),
+                B.App(n, B.FUN(B.BOOL, (B.INT,)), (B.Int(i),)),
+                ('forall', ((n, B.INT),), (('le', None, (si_, B.Sym(
+                    'x', B.INT))),)),
+                ('and', None, (('or', None, (sb_, B.Sym('q', B.BOOL))),
+                               ('or', None, (sb_, B.Sym('q', B.BOOL))),
+                               sb_)),
+            ]
+            for b in cases:
+                for how in hows:
+                    if rep.only and rep.only != how:
+                        continue
+                    ck.check(how, b, j)
+                    rep.count('escaped_name_cases')
+                    j += 1
+    finally:
+        S.PYSMT_ESCAPES[0] = False
     # every operator with systematic operand shapes
     rep.share(0.4)
     sysl = [b for (_, _, b) in G.systematic(
@@ -396,7 +471,8 @@ def run(rep):
                         names=['.def_%d' % i for i in range(8)], nsyms=2)
         g = G.Gen(rng, cfg)
         b = g.term(B.BOOL)
-        for how in hows:
+        for how in hows + (['dag-after-failure', 'tree-after-failure']
+                           if k % 4 == 0 else []):
             if rep.only and rep.only != how:
                 continue
             ck.check(how, b, j)
